@@ -98,7 +98,9 @@ func (e extractor) extract(node ast.Node) {
 		}
 		e.file.Messages = append(e.file.Messages, po.Message{
 			Comment: po.Comment{
-				ExtractedComments: []string{node.Desc},
+				// (one comment per line of the description: a line break inside a
+				// comment would end it, and the rest would be read as an entry.)
+				ExtractedComments: strings.FieldsFunc(node.Desc, func(r rune) bool { return r == '\n' || r == '\r' }),
 				References:        []string{fmt.Sprintf("id=%d%v", node.ID, pluralVar)},
 			},
 			Ctxt:     node.Meaning,
